@@ -329,9 +329,9 @@ func execRelay(r *vh.Run, c *caseSpec) (*obs, string) {
 		enc0 = c.C2S.Enc
 		w0 = o.rd[0].Wire
 	}
-	o.fed[0] = steps(reqHeaders(c.CT, enc0), c.C2S, w0)
+	o.fed[0] = steps(reqHeaders(c, enc0), c.C2S, w0)
 	if c.S2C != nil {
-		o.fed[1] = steps(resHeaders(c.CT, c.S2C.Enc), c.S2C, o.rd[1].Wire)
+		o.fed[1] = steps(resHeaders(c, c.S2C.Enc), c.S2C, o.rd[1].Wire)
 	}
 	broken := false
 	await := func(cond func() bool) bool {
